@@ -545,6 +545,30 @@ func (c *c08Runner) observe(m *c08Model) []string {
 			}
 		}
 	}
+	// markers are a position in the (key, upload id) order, whether or not they name an upload in progress: a key marker
+	// before every key lists everything, a key marker lists the uploads of later keys, a marker pair of a finished
+	// upload lists what comes after it
+	for _, mk := range []struct{ km, um string }{{"k0", ""}, {"k1", ""}, {"k1", "00000000-0000-0000-0000-000000000000"}, {"k0", "zzzzzzzz"}} {
+		mm := int32(1000)
+		km, um := mk.km, mk.um
+		lu, err := p.ListMultipartUploads(st.ctx(), &s3.ListMultipartUploadsInput{Bucket: sp(c08Bucket), Prefix: &empty, Delimiter: &empty, KeyMarker: &km, UploadIdMarker: &um, MaxUploads: &mm})
+		if err != nil {
+			an = append(an, "list-uploads-with-marker-failed:"+errClassAPI(err))
+			continue
+		}
+		got := map[string]bool{}
+		for _, u := range lu.Uploads {
+			got[u.Key+"|"+u.UploadID] = true
+		}
+		for name, up := range m.Uploads {
+			id := c.ids[name]
+			after := up.Key > km || (up.Key == km && um != "" && id > um)
+			if after != got[up.Key+"|"+id] {
+				an = append(an, "list-uploads-after-a-marker-that-names-no-upload-differs")
+				break
+			}
+		}
+	}
 	return dedup(an)
 }
 
@@ -556,7 +580,7 @@ func C08(r *ck.Run) {
 	if r.Thorough() {
 		depth = 4
 	}
-	r.Rule(fmt.Sprintf("breadth-first search over every program of length <= %d of 41 (thorough 43) operations — uploadPart with a short body (refused), completion and abort naming another key (refused), uploadPart (2 uploads of the same key + 1 of another key, part numbers 1-2 and sparse 5, 9, 10-byte / 12-byte / 3-byte bodies, re-uploads included), uploadPartCopy with 9 source ranges (whole, sub-ranges, last byte, end equal to and beyond the source size, garbage), complete with 11 part specifications (valid, reordered, repeated, missing, wrong ETag, too-small non-last part), abort — on a real posix backend (minimum part size shrunk to 8 bytes by the overlay), states deduplicated on the reference multipart model; after EVERY step a second backend instance checks GET of both keys (bytes, multipart ETag, initiation metadata), ListObjectsV2, ListParts of every upload (max-parts 1000 and 1) and ListMultipartUploads (max-uploads 1000 and 1, markers followed); distinct = distinct state", depth))
+	r.Rule(fmt.Sprintf("breadth-first search over every program of length <= %d of 41 (thorough 43) operations — uploadPart with a short body (refused), completion and abort naming another key (refused), uploadPart (2 uploads of the same key + 1 of another key, part numbers 1-2 and sparse 5, 9, 10-byte / 12-byte / 3-byte bodies, re-uploads included), uploadPartCopy with 9 source ranges (whole, sub-ranges, last byte, end equal to and beyond the source size, garbage), complete with 11 part specifications (valid, reordered, repeated, missing, wrong ETag, too-small non-last part), abort — on a real posix backend (minimum part size shrunk to 8 bytes by the overlay), states deduplicated on the reference multipart model; after EVERY step a second backend instance checks GET of both keys (bytes, multipart ETag, initiation metadata), ListObjectsV2, ListParts of every upload (max-parts 1000 and 1) and ListMultipartUploads (max-uploads 1000 and 1, markers followed, markers that name no upload in progress); distinct = distinct state", depth))
 	r.Assume("backend.MinPartSize is 8 bytes in this build (overlay constant), everything else is the real code; upload listings are compared as sets plus pagination completeness")
 	cfgs := []pxCfg{{}}
 	if r.Thorough() {
